@@ -1927,7 +1927,9 @@ fn x_child_body(g: &mut Gen, class: &str) -> Vec<String> {
             // nothing is pending in a fresh child, so unblocking delivers nothing (if the simulator let the child
             // inherit a pending signal, this is where it would die)
             9 => body.push((*g.rng.pick(&["unb USR1+USR2+TERM", "set -", "unb URG+WINCH", "set URG"])).to_string()),
-            10 => body.push(format!("act {} {}", g.rng.pick(&XSIGS), g.rng.pick(&["i", "c"]))),
+            // only signals the child never raises: setting SIG_IGN on a pending signal discards it on a real kernel
+            // and not on the simulator (divergence D15, documented, not generated)
+            10 => body.push(format!("act {} {}", g.rng.pick(&["USR1", "USR2", "TERM"]), g.rng.pick(&["i", "c"]))),
             _ => body.push((*g.rng.pick(&["raise URG", "raise WINCH", "caught", "pend"])).to_string()),
         }
     }
@@ -3243,7 +3245,8 @@ fn main() {
     let mut rng = Rng::new(opts.seed ^ 0xC19C_19C1);
     // (quick tier: the real legs spend their time waiting for forked processes, ~30 ms per case on a loaded
     // machine; the counts keep every class at 30+ cases)
-    let n_seq = if thorough { 100_000 } else { 1_000 };
+    let legs0 = std::env::var("C19_LEGS").unwrap_or_else(|_| "SXPH".to_string());
+    let n_seq = if !legs0.contains('S') { 0 } else if thorough { 100_000 } else { 1_000 };
     for i in 0..n_seq {
         let class = if i % 5 < 3 { "clean" } else { CLASSES[1 + (i / 5) % 15] };
         let case = gen_seq(&mut rng, class, thorough);
@@ -3251,7 +3254,9 @@ fn main() {
             run_seq_case(&case);
         }
     }
-    let n_x = if thorough { 30_000 } else { 300 };
+    // debugging aid (not used by check.py): C19_LEGS=X runs only the generated legs named
+    let legs = std::env::var("C19_LEGS").unwrap_or_else(|_| "SXPH".to_string());
+    let n_x = if !legs.contains('X') { 0 } else if thorough { 30_000 } else { 300 };
     for i in 0..n_x {
         let class = ["inherit", "zombie", "shared"][i % 3];
         let case = gen_x(&mut rng, class);
@@ -3259,7 +3264,7 @@ fn main() {
             run_x_case(&case);
         }
     }
-    let n_proc = if thorough { 60_000 } else { 600 };
+    let n_proc = if !legs.contains('P') { 0 } else if thorough { 60_000 } else { 600 };
     for i in 0..n_proc {
         let class = match i % 10 {
             3 | 8 => "exit8",
@@ -3271,7 +3276,7 @@ fn main() {
             run_proc_case(&case);
         }
     }
-    let n_sh = if thorough { 12_000 } else { 150 };
+    let n_sh = if !legs.contains('H') { 0 } else if thorough { 12_000 } else { 150 };
     for i in 0..n_sh {
         let (tag, script) = gen_script(&mut rng, i % 4 == 3);
         if mine(&mut index) {
